@@ -222,7 +222,7 @@ def cases_c05(rng, n):
 def cases_c06(rng, n):
     out = []
     kinds = ["self", "ref", "borrow"]
-    probes = ["provider", "none", "wrong_way", "nosync", "typed_receiver_not_send"]
+    probes = ["provider", "none", "wrong_way", "nosync", "typed_receiver_not_send", "generic_trait"]
     combos = [(k, p) for k in kinds for p in probes]
     for i in range(n):
         kind, probe = combos[i % len(combos)]
@@ -246,7 +246,22 @@ def cases_c06(rng, n):
             nosync = "pub struct Ap { p: P, c: std::cell::Cell<i64> } impl std::borrow::Borrow<dyn Tq> for Ap { fn borrow(&self) -> &(dyn Tq + 'static) { &self.p } }"
         client = "pub fn client() { need::<Impl<Ap>>(); }"
         fam = "forward/%s/%s" % (kind, probe)
-        if probe == "typed_receiver_not_send":
+        if probe == "generic_trait":
+            # a trait with generic parameters of its own: a lifetime, a defaulted type parameter, a defaulted const parameter
+            g, args, meth, imp, needs = rng.choice([
+                ("<'a>", "<'a>", "fn m0(&self, x: &'a i64) -> &'a i64;", "fn m0(&self, x: &'a i64) -> &'a i64 { x }", "pub fn need<'a, T: Tq<'a>>() {}"),
+                ("<X = i64>", "<i64>", "fn m0(&self, x: X) -> X;", "fn m0(&self, x: i64) -> i64 { x }", "pub fn need<T: Tq>() {}"),
+                ("<const N: usize = 3>", "<3>", "fn m0(&self) -> usize;", "fn m0(&self) -> usize { 3 }", "pub fn need<T: Tq>() {}"),
+                ("<'a, 'b: 'a, X: Clone = String>", "<'a, 'b, String>", "fn m0(&self, x: &'a X, y: &'b X) -> &'a X;", "fn m0(&self, x: &'a String, y: &'b String) -> &'a String { x }",
+                 "pub fn need<'a, 'b: 'a, T: Tq<'a, 'b>>() {}"),
+            ])
+            lt = "<'a, 'b: 'a>" if "'b" in g else ("<'a>" if "'a" in g else "")
+            if kind == "self":
+                setup2 = "#[entrait(%s)]\npub trait Tq%s { %s }\npub struct Ap; impl%s Tq%s for Ap { %s }\n%s\n" % (attr, g, meth, lt, args, imp, needs)
+                out.append(SCase("C06", fam + "/" + g.replace(" ", ""), lib=setup2 + client))
+            else:
+                out.append(SCase("C06", fam + "/skipped-for-dyn", lib="pub fn client() {}"))
+        elif probe == "typed_receiver_not_send":
             # `self: &Self` is a reference receiver: only `Sync + 'static` may be demanded of T, a Sync type that is not Send qualifies
             setup2 = ("#[entrait(%s)]\npub trait Tq { fn m0(self: &Self, x: i64) -> i64; }\npub struct P; impl Tq for P { fn m0(self: &Self, x: i64) -> i64 { x } }\n"
                       "pub fn need<T: Tq>() {}\n") % attr
@@ -666,7 +681,7 @@ def build_cases(seed, tier):
     cases = []
     cases += cases_c04(rng, 70 * k)
     cases += cases_c05(rng, 12 * k)
-    cases += cases_c06(rng, 30 * k)
+    cases += cases_c06(rng, 36 * k)
     cases += cases_c13(rng, 72 * k)
     cases += cases_c12(rng, 21 * k)
     cases += cases_c14(rng, 27 * k)
